@@ -27,7 +27,9 @@ impl StateMachine<'_> {
     }
 
     fn _handle_commit_meta_header_line(&mut self) -> std::io::Result<()> {
-        if self.config.commit_style.is_omitted {
+        // In color_only mode the 1-1 correspondence between input and output lines must be
+        // kept, so the line is not dropped (cf. write_generic_diff_header_header_line).
+        if self.config.commit_style.is_omitted && !self.config.color_only {
             return Ok(());
         }
         let (mut draw_fn, pad, decoration_ansi_term_style) =
